@@ -3,5 +3,5 @@
 cd "$(dirname "$0")/.."
 for id in "$@"; do
   echo "=== $id $(date +%T)"
-  VERIF_OUT=${VERIF_OUT:-/var/tmp/verif-thorough} timeout 3000 ./run.sh $id thorough 2>&1 | grep -E "^(VIOLATION|KNOWN|SUMMARY|ERROR)" | cut -c1-400
+  VERIF_OUT=${VERIF_OUT:-/var/tmp/verif-thorough} VERIF_BIN=/var/tmp/verif-thorough/bin VERIF_BUILD=/var/tmp/verif-thorough/build timeout 3000 ./run.sh $id thorough 2>&1 | grep -E "^(VIOLATION|KNOWN|SUMMARY|ERROR)" | cut -c1-400
 done
